@@ -479,3 +479,24 @@ def gen_layout(rng, size, adversarial=False):
     # addresses ascending
     regs.sort(key=lambda r: r["start"])
     return regs
+
+
+def group_assets(assets):
+    """{group: [asset..]} with groups pe / dotnet / elf / macho / dex — drawn uniformly so that the rarer formats get
+    as many mutations as pe"""
+    g = {"pe": [], "dotnet": [], "elf": [], "macho": [], "dex": []}
+    for a in assets:
+        path, b, kind = a
+        if kind == "pe":
+            clr = pe_layout(b)[3]
+            g["dotnet" if (clr is not None or "/dotnet/" in path) else "pe"].append(a)
+        elif kind in ("macho", "fat"):
+            g["macho"].append(a)
+        elif kind in g:
+            g[kind].append(a)
+    return {k: v for k, v in g.items() if v}
+
+
+def pick_asset(rng, groups):
+    k = rng.choice(sorted(groups))
+    return rng.choice(groups[k])
